@@ -36,6 +36,7 @@ func runC06(c *Ctx, r *Rec) {
 	info := c.info("collection")
 	cms := c.methodsOf(cls)
 	checkChannelSelfFill(c, r, "D4-channel-self-fill", fileFuncs(c, "collection", cls))
+	checkNarrowCounters(c, r, "D3-narrow-counters", fileFuncs(c, "collection", cls))
 	for _, name := range []string{"Fork", "Split", "Join"} {
 		fd := cms[name]
 		construct := "collection." + cls.Obj().Name() + "." + name
